@@ -3,17 +3,28 @@ use serde_json::Value;
 
 pub mod c01;
 pub mod c02;
+pub mod c04;
 pub mod c05;
 pub mod c06;
+pub mod c07;
 pub mod c14;
+pub mod c20;
+
+/// properties that quantify over build configurations
+pub fn two_profiles(id: &str) -> bool {
+    matches!(id, "C03" | "C07")
+}
 
 pub fn run(ctx: &Ctx) -> Option<Report> {
     Some(match ctx.id.as_str() {
         "C01" => c01::run(ctx),
         "C02" => c02::run(ctx),
+        "C04" => c04::run(ctx),
         "C05" => c05::run(ctx),
         "C06" => c06::run(ctx),
+        "C07" => c07::run(ctx),
         "C14" => c14::run(ctx),
+        "C20" => c20::run(ctx),
         _ => return None,
     })
 }
@@ -38,9 +49,12 @@ pub fn replay(id: &str, file: &str) -> i32 {
     let verdict = match id {
         "C01" => c01::replay(case),
         "C02" => c02::replay(case),
+        "C04" => c04::replay(case),
         "C05" => c05::replay(case),
         "C06" => c06::replay(case),
+        "C07" => c07::replay(case),
         "C14" => c14::replay(case),
+        "C20" => c20::replay(case),
         _ => {
             eprintln!("unknown property {id}");
             return 2;
